@@ -24,7 +24,7 @@ HevcSizes == {[w |-> 1920, h |-> 1088], [w |-> 352, h |-> 288]}
 HEVC == {[fam |-> "hevc", maxsub |-> ms, ordering |-> od, sublayers |-> sl, chroma |-> c, conf |-> k, scaling |-> s, pcm |-> p, rps |-> r,
           longterm |-> lt, vui |-> v, size |-> z] :
            ms \in {0, 2}, od \in {0, 1}, sl \in {"none", "present"}, c \in Chromas("high"), k \in {"none", "bottom", "lrtb"},
-           s \in {"off", "default", "data"}, p \in {0, 1}, r \in {"none", "plain", "inter", "chain"}, lt \in {0, 1},
+           s \in {"off", "default", "data"}, p \in {0, 1}, r \in {"none", "plain", "inter", "chain", "zero"}, lt \in {0, 1},   \* "zero": a predicted set in which ref dPoc + deltaRps = 0 occurs (7-61), then a set predicted from it
            v \in {"none", "timing", "timinghrd", "full", "poc"}, z \in HevcSizes}
 HEVCOK(c) == (c.maxsub = 0 => c.sublayers = "none")
 
